@@ -928,3 +928,59 @@ def generator_jumps(seed=0, seed_hex="5e" * 64):
             if tuple(item) != (str(fchild), wo2.p2wpkh_address(fchild)) or item[1] != w.p2wpkh_address(w.by_path("m/84'/%d'/0'/0" % coin).ckd(at)):
                 raise Mismatch("purity", "watch-only address generator at index %d yielded %r, a fresh import says %r" % (at, tuple(item), (str(fchild), wo2.p2wpkh_address(fchild))))
     return n
+
+
+def held_arguments(seed=0, seed_hex="5e" * 64):
+    """An application keeps the ARGUMENT objects it passes (path lists, interval lists) and passes the same object
+    again later, to the same node and to others.  The answer to the request the caller wrote (the same
+    object, passed again) must be the first answer and what a fresh wallet derives step by step for that path - which
+    it cannot be if an earlier call used the object up.  Raises Mismatch."""
+    import copy
+    import random
+    from btc_hd_wallet import PaperWallet
+    rng = random.Random(seed)
+    Hd = 2 ** 31
+    n = 0
+    for test in (False, True):
+        w = PaperWallet.from_bip39_seed_hex(seed_hex, testnet=test)
+        pool = [[44 + Hd, Hd, Hd, 0, 5], [0], [], [1, 2, 3], [Hd + 7, 9], [84 + Hd, 1 + Hd, Hd]]
+        pool += [[rng.randrange(2 ** 32 if rng.random() < .5 else Hd) for _ in range(rng.randrange(1, 5))] for _ in range(3)]
+        saved = copy.deepcopy(pool)
+        nodes = [w.master, w.master.ckd(3)]
+        ref = {}
+        for rnd in range(3):
+            order = list(range(len(pool)))
+            rng.shuffle(order)
+            for j in order:
+                for ni, node in enumerate(nodes):
+                    try:
+                        got = node.derive_path(pool[j]) if (rnd + j) % 2 else node.derive_path(index_list=pool[j])
+                    except Exception as ex:
+                        raise Mismatch("purity", "derive_path(%r) (request no. %d with this list object) raised %r" % (saved[j], rnd + 1, ex))
+                    if (j, ni) not in ref:
+                        f = PaperWallet.from_bip39_seed_hex(seed_hex, testnet=test).master
+                        f = f if ni == 0 else f.ckd(3)
+                        for i in saved[j]:
+                            f = f.ckd(i)
+                        ref[(j, ni)] = (World.fields(f), str(f))
+                    n += 1
+                    if (World.fields(got), str(got)) != ref[(j, ni)]:
+                        raise Mismatch("purity", "derive_path(%r), request no. %d with the same list object, gave %s; a fresh wallet derives %s%s"
+                                       % (saved[j], rnd + 1 + (ni > 0), str(got), ref[(j, ni)][1],
+                                          " (the list the caller passed was changed by an earlier call: it now reads %r)" % (pool[j],) if pool[j] != saved[j] else ""))
+        # interval objects of bulk generation
+        chain = w.by_path("m/84'/%d'/0'/0" % (1 if test else 0))
+        for iv in ([2, 5], [0, 1], [Hd - 1, Hd + 1], [4, 4]):
+            keep = list(iv)
+            first = None
+            for rnd in range(3):
+                kids = [World.fields(c) for c in (chain.generate_children(iv) if rnd % 2 else chain.generate_children(interval=iv))]
+                n += 1
+                if first is None:
+                    first = kids
+                    fchain = PaperWallet.from_bip39_seed_hex(seed_hex, testnet=test).by_path("m/84'/%d'/0'/0" % (1 if test else 0))
+                    if kids != [World.fields(fchain.ckd(i)) for i in range(*keep)]:
+                        raise Mismatch("purity", "generate_children(%r) differs from single steps on a fresh wallet" % (keep,))
+                elif kids != first:
+                    raise Mismatch("purity", "generate_children(%r) with the same interval object answered differently the %d. time" % (keep, rnd + 1))
+    return n
